@@ -82,6 +82,9 @@ THEOREMS = [
     "Lena.C19.stale_when_tex_missing",
     "Lena.C19.fresh_when_all_sources_missing",
     "Lena.C19.group_history_fresh_partial",
+    "Lena.C19.getTemplate_current",
+    "Lena.C19.run_independent_of_previous_runs",
+    "Lena.C19.object_history_eq_fresh",
 ]
 CASE_TIMEOUT = 20
 
@@ -208,6 +211,8 @@ class _Env(object):
         self.base = tempfile.mkdtemp(prefix="C19-h-", dir=_tmp_base())
         self.proc = proc
         self.tick = 0
+        self.tpl_now = None      # (layout, template id) of the template file on disk
+        self.tpl_edits = 0       # number of edits so far = its logical modification time
         os.mkdir(os.path.join(self.base, "tpl"))
         self.old_path = None
         if proc:
@@ -325,13 +330,25 @@ class _Env(object):
             stamps[r] = t
         return stamps
 
-    def set_template(self, layout, tpl):
+    def set_template(self, layout, tpl, mtime=None):
+        """Edit the template file tpl/t.tex (same path, same size) if its content has to change, and give it a new
+        modification time explicitly (as a real edit would; the harness is faster than the clock of the file
+        system).  An unchanged template is not touched.  `mtime` forces a given logical time (stage cases)."""
+        if mtime is None and self.tpl_now == (layout, tpl):
+            return
         if layout == "group":
             text = "TPL%d\\BLOCK{for item in group} CSV:\\VAR{item.output.filepath}\\BLOCK{endfor} end" % tpl
         else:
             text = "TPL%d CSV:\\VAR{output.filepath} end" % tpl
-        with open(os.path.join(self.base, "tpl", "t.tex"), "w") as f:
+        path = os.path.join(self.base, "tpl", "t.tex")
+        with open(path, "w") as f:
             f.write(text)
+        if mtime is None:
+            self.tpl_edits += 1
+            mtime = self.tpl_edits
+        t = (1500000000 + mtime) * 10 ** 9
+        os.utime(path, ns=(t, t))
+        self.tpl_now = (layout, tpl)
 
     def take_log(self):
         if self.proc:
@@ -361,8 +378,8 @@ def _mf(L, a):
                                     suffix=_tpl_str(a["suffix"]), overwrite=a["overwrite"])
 
 
-def _write(L, outdir, mode):
-    return L["output"].Write(outdir, verbose=False, existing_unchanged=(mode == "eu"), overwrite=(mode == "ow"))
+def _write(L, outdir, mode, verbose=False):
+    return L["output"].Write(outdir, verbose=verbose, existing_unchanged=(mode == "eu"), overwrite=(mode == "ow"))
 
 
 OUT_KEYS = ("filename", "dirname", "fileext", "filetype", "prefix", "suffix", "filepath", "changed")
@@ -417,19 +434,21 @@ def _snapshot(env, before):
     return res
 
 
-def _pipeline(L, env, cfg, layout):
+def _pipeline(L, env, cfg, layout, verbose=False):
     out = env.abs(cfg["outdir"])
     o = L["output"]
+    v = bool(verbose)
 
     def cc(tex, outname, outdir, ctx):
         return ["fakelatex", tex, outname]
-    tail = [o.RenderLaTeX("t.tex", template_dir=os.path.join(env.base, "tpl")), _write(L, out, cfg["w2"]),
-            o.LaTeXToPDF(overwrite=cfg["lo"], verbose=0, create_command=cc),
-            o.PDFToPNG(overwrite=cfg["po"], verbose=False)]
+    tail = [o.RenderLaTeX("t.tex", template_dir=os.path.join(env.base, "tpl"), verbose=2 if v else 0),
+            _write(L, out, cfg["w2"], v),
+            o.LaTeXToPDF(overwrite=cfg["lo"], verbose=2 if v else 0, create_command=cc),
+            o.PDFToPNG(overwrite=cfg["po"], verbose=v)]
     if layout == "group":
-        return L["core"].Sequence(L["flow"].MapGroup(o.ToCSV(), _mf(L, cfg["mf"]), _write(L, out, cfg["w1"])),
+        return L["core"].Sequence(L["flow"].MapGroup(o.ToCSV(), _mf(L, cfg["mf"]), _write(L, out, cfg["w1"], v)),
                                   _mf(L, cfg["gmf"]), *tail)
-    return L["core"].Sequence(o.ToCSV(), _mf(L, cfg["mf"]), _write(L, out, cfg["w1"]), *tail)
+    return L["core"].Sequence(o.ToCSV(), _mf(L, cfg["mf"]), _write(L, out, cfg["w1"], v), *tail)
 
 
 def _flow(L, layout, plots):
@@ -446,6 +465,7 @@ def _run_hist(case):
     L = _lena()
     env = _Env(proc=(case.get("stub") == "proc"))
     runs = []
+    seq = None
     try:
         for st in case["steps"]:
             for r in st.get("del", []):
@@ -461,7 +481,9 @@ def _run_hist(case):
             _State.proc = env.proc
             _State.log = []
             try:
-                seq = _pipeline(L, env, rs, rs["layout"])
+                if seq is None or not case.get("reuse"):
+                    # "reuse": ONE pipeline object (Sequence and all its elements) serves every run of the history
+                    seq = _pipeline(L, env, rs, rs["layout"], verbose=bool(case.get("verbose")))
             except Exception as e:
                 runs.append({"e": exc_name(e), "phase": "init"})
                 break
@@ -532,6 +554,21 @@ def _run_stage(case):
         except Exception as e:
             return {"e": exc_name(e)}
         return {"mode": "eu" if w._existing_unchanged else ("ow" if w._overwrite else "normal")}
+    if op == "render2":
+        env = _Env()
+        try:
+            el = L["output"].RenderLaTeX("t.tex", template_dir=os.path.join(env.base, "tpl"))
+            out = []
+            for t, m in case["tpls"]:
+                env.set_template("separate", t, mtime=m)
+                res = list(el.run(iter([("x", {"output": {"filetype": "csv", "filepath": env.abs("out/f.csv")}})])))
+                tok = env.dec(res[0][0])
+                out.append(tok.get("tex", tok))
+            return {"r": out}
+        except Exception as e:
+            return {"e": exc_name(e)}
+        finally:
+            env.close()
     if op == "gp":
         vals = [("d%d" % i, ({} if m is None else {"output": {"changed": m}})) for i, m in enumerate(case["ms"])]
         try:
@@ -589,7 +626,16 @@ def run_impl(case):
 def model_requests(case):
     op = case["op"]
     if op == "hist":
-        return [{"op": "hist", "watch": [], "steps": case["steps"]}]
+        # the logical modification time of the template file = the number of its edits so far
+        steps, now, edits = [], None, 0
+        for st in case["steps"]:
+            if "run" in st:
+                r = st["run"]
+                if now != (r["layout"], r["tpl"]):
+                    now, edits = (r["layout"], r["tpl"]), edits + 1
+                st = dict(st, run=dict(r, tplm=edits))
+            steps.append(st)
+        return [{"op": "hist", "reuse": bool(case.get("reuse")), "watch": [], "steps": steps}]
     if op in ("write", "latex", "png"):
         return [dict(case, watch=sorted(f["p"] for f in case["world"]["files"]))]
     return [case]
@@ -748,6 +794,24 @@ def _oracle_stage(case, res):
         if case["eu"] and case["ow"]:
             return None if res.get("e") == "LenaValueError" else f"both options must raise LenaValueError, got {res}"
         return None if "e" not in res else f"Write(...) raised {res}"
+    if op == "render2":
+        if "e" in res:
+            return f"RenderLaTeX raised {res}"
+        # one RenderLaTeX object, the template file edited between its runs: the rendered text must come from the
+        # template that is on disk now.  (An edit that leaves the modification time as it was is not noticed by
+        # jinja2 — excluded by assumption: a real edit changes the modification time.)
+        coherent, prev = True, None
+        for i, ((t, m), r) in enumerate(zip(case["tpls"], res["r"])):
+            if prev is not None:
+                if m != prev[1]:
+                    coherent = True
+                elif t != prev[0]:
+                    coherent = False
+            if coherent and r != t:
+                return (f"RenderLaTeX re-used: run {i} rendered template {r} although the template file holds "
+                        f"template {t} (states of the file: {case['tpls']})")
+            prev = (t, m)
+        return None
     if op == "gp":
         if "e" in res:
             return f"group_plots raised {res}"
@@ -1025,6 +1089,7 @@ def classify(case, res):
     runs = [st["run"] for st in case["steps"] if "run" in st]
     labels.append(f"hist:{runs[0]['layout']}:plots={len(runs[-1]['plots'])}:runs={len(runs)}")
     labels.append("stub:" + case.get("stub", "fake"))
+    labels.append("pipeline objects:" + ("one object re-used for all runs" if case.get("reuse") else "new for every run"))
     for r in runs[1:]:
         labels.append(f"write modes (csv/tex):{r['w1']}/{r['w2']}")
         labels.append(f"converter overwrite (latex/png):{int(r['lo'])}/{int(r['po'])}")
@@ -1185,6 +1250,11 @@ def _stage_cases():
                             cases.append({"op": "png", "overwrite": ow, "format": fmt, "world": {"files": fs, "clock": 9},
                                           "data": {"path": f"{OUT}/f.pdf"},
                                           "out": {"filetype": ft, "fileext": "tex", "filename": "f", "changed": cin}})
+    # one RenderLaTeX object, the template file in a sequence of states (content, modification time)
+    states = [(t, m) for t in (1, 2) for m in (1, 2, 3)]
+    for n in (2, 3):
+        for seq in itertools.product(states, repeat=n):
+            cases.append({"op": "render2", "tpls": [list(x) for x in seq]})
     # group_plots / _update_with_group
     tri = (None, True, False)
     for n in range(1, 4):
@@ -1212,7 +1282,14 @@ def _mark_known_witnesses(cases, limit=25):
             k += 1
 
 
-def _random_history(rng, max_runs=4, max_plots=3):
+def _reusable(case):
+    """all runs of the history can be served by one pipeline object: same options, layout and file names"""
+    runs = [st["run"] for st in case["steps"] if "run" in st]
+    key = lambda r: jdump({k: r[k] for k in ("outdir", "w1", "w2", "lo", "po", "mf", "gmf", "layout")})
+    return len(runs) >= 2 and all(key(r) == key(runs[0]) for r in runs)
+
+
+def _random_history(rng, max_runs=4, max_plots=3, const_cfg=False):
     layout = rng.choice(["separate", "separate", "group"])
     n = rng.randint(1, max_plots)
     files = _unit_files(layout, n)
@@ -1224,7 +1301,8 @@ def _random_history(rng, max_runs=4, max_plots=3):
         tpl = tpl if rng.random() < 0.6 else 3 - tpl
         dels = [] if i == 0 else [f for f in files if rng.random() < rng.choice([0.0, 0.15, 0.4])]
         r = rng.random()
-        cfg = _cfg() if r < 0.5 else rng.choice(ALL_CFGS)
+        if i == 0 or not const_cfg:
+            cfg = _cfg() if r < 0.5 else rng.choice(ALL_CFGS)
         steps.append(_run_step(cfg, layout, tpl, list(datas), dels))
     return {"op": "hist", "steps": steps}
 
@@ -1300,6 +1378,18 @@ def gen_cases(ctx):
             add({"op": "hist", "steps": [first, rng.choice(alpha1), rng.choice(alpha1)]})
         for _ in range(500):
             add(_random_history(rng))
+    # ONE pipeline object re-used for all runs of a history (the elements keep state between runs: the template
+    # cache of RenderLaTeX, the pool of LaTeXToPDF): a twin of every history whose runs share their options
+    for _ in range(6000 if thorough else 400):
+        add(_random_history(rng, const_cfg=True))
+    pool = [c for c in closed + open_ if _reusable(c)]
+    if thorough and len(pool) > 40000:
+        pool = rng.sample(pool, 40000)
+    for i, c in enumerate(pool):
+        twin = dict(copy.deepcopy(c), reuse=True)
+        if i % 7 == 0:
+            twin["verbose"] = True      # the elements' messages (printed to a null device)
+        add(twin)
     # real subprocesses as converters on a sample
     hists = closed + open_
     for c in rng.sample(hists, 150 if thorough else 24):
@@ -1323,12 +1413,38 @@ def search_cases(ctx):
     return cases
 
 
+def _fail_class(case):
+    try:
+        fails = hist_failures(case, run_impl(case))
+    except Exception:
+        return None
+    if any(c == "violation" for c, _ in fails):
+        return "violation"
+    return "known" if fails else None
+
+
 def shrink(case):
+    """smaller histories; a history that fails outside the known class is only shrunk to histories that still do
+    (otherwise the shrinker would slide into the known finding)"""
     if case["op"] != "hist":
         return
+    if _fail_class(case) == "violation":
+        for cand in _shrink_candidates(case):
+            if _fail_class(cand) == "violation":
+                yield cand
+    else:
+        for cand in _shrink_candidates(case):
+            yield cand
+
+
+def _shrink_candidates(case):
     steps = case["steps"]
     if case.get("stub") == "proc":
         yield {k: v for k, v in case.items() if k != "stub"}
+    if case.get("verbose"):
+        yield {k: v for k, v in case.items() if k != "verbose"}
+    if case.get("reuse"):
+        yield {k: v for k, v in case.items() if k != "reuse"}
     for i in range(len(steps)):
         if len(steps) > 1:
             yield dict(case, steps=steps[:i] + steps[i + 1:])
@@ -1380,19 +1496,28 @@ ASSUMPTIONS = [
     "ToCSV and jinja2 are functions of their input: csvOf(data), texOf(template, paths of the csv files); the harness "
     "checks the texts against an independent formula / the template it wrote",
     "contexts: only context.output and the key `name` are modelled; file-name templates are literals and {{name}}",
+    "an edit of the template file changes its modification time (jinja2 re-uses a cached template iff the time is the "
+    "same; the harness sets the time explicitly at every edit; the model shows that an edit which keeps the time is "
+    "served stale, and the render2 stage cases compare exactly that with the real RenderLaTeX)",
+    "state kept by elements between runs: the jinja2 template cache of RenderLaTeX (modelled: PipeState, getTemplate, "
+    "runObject; run_independent_of_previous_runs) and the process pool of LaTeXToPDF (empty after a completed run: the "
+    "model runs commands to completion); ToCSV, MakeFilename, Write, PDFToPNG, MapGroup keep none",
     "theorems about freshness assume SourceClosed (every existing pdf has its tex and csv files on disk at the start of "
     "a run); without it the statement is false for the code as it is (history_fresh_full_fails = the known finding)",
 ]
 RULE = ("stage cases (exhaustive small scopes): MakeFilename arguments x name x incoming output (all valid combinations), "
         "Write._make_filename keys x output directories, Write.run mode x existing file {none, same, different} x incoming "
         "changed {unset, True, False} x data kind, LaTeXToPDF overwrite x changed x tex/pdf presence and mtime order, "
-        "PDFToPNG likewise, group_plots and _update_with_group over {unset, True, False}^(1..3).  Histories: one plot, first "
+        "PDFToPNG likewise, one RenderLaTeX object over all sequences of 2-3 states (content, mtime) of the template file, "
+        "group_plots and _update_with_group over {unset, True, False}^(1..3).  Histories: one plot, first "
         "run then EVERY step of the alphabet data{keep,change} x template{keep,change} x deletion of any subset of "
         "csv/tex/pdf/png (64), the same with all 36 option settings; a group of two plots with every step of its "
         "256-step alphabet; groups of 1 and 3, 2 and 3 separate plots and seven naming variants with single deletions; "
         "quick adds 900 sampled two-step and 500 random histories (1-3 plots, 2-4 runs, random options), thorough "
         "enumerates all 4096 histories of three runs of one plot (standard options) and samples 130 000 more (four runs, "
-        "groups, option settings, random); real sh-script converters on a "
+        "groups, option settings, random); every history whose runs share their options is run "
+        "twice: with new pipeline objects for every run and with ONE Sequence object re-used for all runs (template "
+        "file edited in place, same size, modification time bumped explicitly); real sh-script converters on a "
         "sample.  Non-trivial: a history of at least two completed runs.")
 LEVEL_TEXT = ("Lean 4 theorems about a transcribed model of the output pipeline over an abstract file system, for all "
               "converters, pre-states satisfying the stated invariant, data, templates, numbers of plots and option "
